@@ -29,8 +29,27 @@ impl<L: Language, N: Analysis<L>> SubstMethod<L, N> for SynExprSubst {
         t: AppliedId,
         eg: &mut EGraph<L, N>,
     ) -> AppliedId {
-        let term = eg.get_syn_expr(&eg.synify_app_id(b));
+        let term = get_syn_expr_refreshed(eg, &eg.synify_app_id(b));
         do_term_subst(eg, &term, &x, &t)
+    }
+}
+
+// Like EGraph::get_syn_expr, but every bound slot of the returned term is brand-new.
+// The slot of `x` and the free slots of `t` are names chosen by the user (pattern slots); the bound slots stored in the syntactic e-nodes
+// are names the e-graph chose earlier. If they coincide, do_term_subst would replace a bound `x`, or a binder would capture a slot of `t`.
+fn get_syn_expr_refreshed<L: Language, N: Analysis<L>>(eg: &EGraph<L, N>, i: &AppliedId) -> RecExpr<L> {
+    let enode = eg
+        .get_syn_node(&eg.mk_syn_identity_applied_id(i.id))
+        .refresh_private()
+        .apply_slotmap(&i.m);
+    let cs = enode
+        .applied_id_occurrences()
+        .iter()
+        .map(|x| get_syn_expr_refreshed(eg, x))
+        .collect();
+    RecExpr {
+        node: nullify_app_ids(&enode),
+        children: cs,
     }
 }
 
